@@ -30,8 +30,17 @@ ASSUMPTIONS = [
     "Sequence._mapped / constructors are exercised, not modelled",
     "projection_denotes assumes the aligned row contains every residue of the feature (true for a row of the whole "
     "sequence); the own-row slice of alignment features is exercised against a column oracle",
-    "Sequence.add_feature on a sequence with a non-zero annotation_offset is out of scope (features are loaded into "
-    "the db in absolute coordinates)",
+    "Sequence.add_feature is NOT exercised (features are loaded into the db in absolute coordinates). It stores the "
+    "view-relative spans it is given as absolute ones, so on any view with a non-zero annotation_offset -- which "
+    "includes every sliced view, annotation_offset being the view's parent_start -- the added feature moves "
+    "(hand replay: s[3:9].add_feature(spans=[(1,3)]) returns 'AC' but the same view's get_features() does not return "
+    "it and the parent reads 'CG'); candidate defect, not a known finding",
+    "get_slice() of new-style Sequences differs from the model whenever the SeqView carries an offset "
+    "(new_sequence.Sequence._mapped single-span branch; open finding): the 'one model for old and new' claim does not "
+    "hold for _mapped",
+    "makeFeature on the EMPTY span list returns an empty feature where the code raises ValueError (numpy min of an empty "
+    "array); the db refuses empty span lists, so no db record reaches it; the direct make_feature stream leaves it out",
+    "non-nucleic (protein) sequences are covered by feature_on_forward_view_any_moltype but not exercised by the harness",
 ]
 
 COMP = str.maketrans("ACGTacgt", "TGCAtgca")
@@ -718,6 +727,39 @@ def _real_feature(seq, rec):
     return dict(spans=spans, reversed=bool(f.reversed))
 
 
+def _real_make_feature(seq, spans, strand):
+    """Sequence.make_feature called directly (the user-facing entry) with view-relative spans"""
+    rec = dict(biotype="gene", name="m", spans=[list(x) for x in spans])
+    if strand is not None:
+        rec["strand"] = strand
+    try:
+        f = seq.make_feature(rec)
+    except (ValueError, IndexError, AssertionError, RuntimeError) as e:
+        return {"err": type(e).__name__}
+    return dict(spans=[["lost", int(s.length)] if s.lost else [int(s.start), int(s.end)] for s in f.map.spans],
+                reversed=bool(f.reversed))
+
+
+def _gen_rel_spans(rng, L):
+    """view-relative span lists for make_feature: mostly well-formed (s < e, ordered), edges on / around 0 and L;
+    otherwise malformed (s >= e, unordered, far outside)"""
+    pts = [-3, -2, -1, 0, 1, 2, L - 2, L - 1, L, L + 1, L + 2, L + 4] + [rng.randint(-2, L + 2) for _ in range(3)]
+    k = rng.choice([1, 1, 2, 3])
+    r = rng.random()
+    if r < 0.65:
+        chosen = sorted(rng.sample(sorted(set(pts)), min(2 * k, len(set(pts))) // 2 * 2))
+        return [[chosen[2 * j], chosen[2 * j + 1]] for j in range(len(chosen) // 2)], "wellformed"
+    if r < 0.8:  # ordered by start but overlapping / nested
+        sp = sorted([sorted([rng.choice(pts), rng.choice(pts)]) for _ in range(k)])
+        return [x for x in sp], "overlapping"
+    return [[rng.choice(pts), rng.choice(pts)] for _ in range(k)], "malformed"
+
+
+def _known_offset_guard(case, raised):
+    """the one get_slice exception the correspondence tolerates: open finding C04-new-sequence-feature-slice-offset-guard"""
+    return case.get("kind") == "new" and raised.startswith("raised ValueError") and "cannot set offset" in raised
+
+
 def correspondence(ctx):
     out = new_outcome(
         "Lean model vs real (old and new Sequence): (a) the (start, stop) window get_features sends to the annotation db "
@@ -725,7 +767,12 @@ def correspondence(ctx):
         "(b) the feature map (spans incl. lost spans, reversed flag) or exception class of every record the db returns "
         "on the final view vs featureOnView, and the model's slice positions vs the residues actually returned; "
         "(c) Spec.denote vs the Python oracle; (d) Aligned.make_feature's projected map (spans incl. lost, parent length) "
-        "on old-style alignments with gapped rows vs FMap.project. non-trivial = feature partly outside the view or on a reversed view, or "
+        "on old-style alignments with gapped rows vs FMap.project; (e) Sequence.make_feature called directly with "
+        "well-formed / overlapping / malformed view-relative span lists on forward, rc'd and strided views vs makeFeature "
+        "(result or exception class); (f) exhaustive one-span box (s, e in [-3, L+3], L = 1..5, forward and rc'd, old and "
+        "new) vs makeFeature and, for s < e, vs clipLocate; (g) whole histories: runOps from ofString at the annotation "
+        "offset, then featureOnView + getSlice, vs the real view record, displayed string and get_slice() after the "
+        "same slice / rc history. non-trivial = feature partly outside the view or on a reversed view, or "
         "window not covering the whole view"
     )
     rng = ctx.subrng("corr")
@@ -756,11 +803,10 @@ def correspondence(ctx):
             try:
                 list(seq.get_features(allow_partial=True, **kw))
                 real = [rec.calls[0]["start"], rec.calls[0]["stop"]] if rec.calls else None
-            except (IndexError, AssertionError) as e:
+            except (IndexError, AssertionError, ValueError, RuntimeError) as e:
+                # (since 11fcfbb18 make_feature no longer raises on db records: an exception after the query was
+                # sent is not tolerated any more -- the model returns a window there and the mismatch is reported)
                 real = {"err": type(e).__name__}
-            except ValueError:
-                # make_feature raised after the query was sent: the window is still observable
-                real = [rec.calls[0]["start"], rec.calls[0]["stop"]] if rec.calls else {"err": "ValueError"}
             seq.replace_annotation_db(rec.inner, check=False)
             reqs.append(("window", dict(view=vj, start=a, stop=b)))
             expect.append(("window", dict(case=case, window=[a, b]), real, None))
@@ -775,7 +821,7 @@ def correspondence(ctx):
                     try:
                         resid = str([x for x in seq.get_features(name=f["name"], allow_partial=True)][0].get_slice())
                     except Exception as e:  # noqa: BLE001
-                        resid = f"raised {type(e).__name__}"
+                        resid = f"raised {type(e).__name__}: {e}"
                 reqs.append(("feature", dict(view=vj, minus=f["strand"] == "-", spans=f["spans"])))
                 expect.append(("feature", dict(case=case, feature=f), real, (resid, case, state)))
                 # residue-level model (Model/FeatureSeq.lean getSlice) on the view's own parent string
@@ -806,6 +852,75 @@ def correspondence(ctx):
                 continue
             reqs.append(("project", dict(A=fm_json(A), fm=fm_json(annot.map))))
             expect.append(("project", dict(aln_case=acase, feature=spec), real, None))
+    # (e) Sequence.make_feature called directly with view-relative spans (user-facing; the spans need not be what
+    # get_features would pass): well-formed, overlapping and malformed span lists on forward / rc'd / strided views.
+    # Ties makeFeature's error branches (locate ValueError, first/last order check), which db records never reach.
+    # The EMPTY span list is left out: numpy's min() of an empty array raises ValueError there, the model's
+    # minOfSpans [] = 0 does not mirror that (documented model deviation; the annotation db refuses empty span lists).
+    for i in range(ctx.budget(150, 1500)):
+        case = gen_case(rng, strided=rng.random() < 0.15)
+        try:
+            seq, state = build(case)
+        except Exception:  # noqa: BLE001
+            continue
+        L = len(seq)
+        for _ in range(3):
+            spans, cls = _gen_rel_spans(rng, L)
+            if not spans:
+                continue
+            strand = rng.choice(["+", "-", None])
+            real = _real_make_feature(seq, spans, strand)
+            reqs.append(("makefeature", dict(L=L, rced=bool(seq._seq.is_reversed), minus=strand == "-", spans=spans)))
+            expect.append(("makefeature", dict(case=case, rel_spans=spans, strand=strand, cls=cls), real, None))
+    # (f) exhaustive small box, one span: every (s, e) in [-3, L+3]^2 (s < e, s = e and s > e) on a forward and an
+    # rc'd whole sequence of length L = 1..5, old and new Sequence; for s < e on the forward view also the per-span
+    # composite clipLocate (what span_on_view is stated about): the real map minus the pre / post lost spans
+    for kind in ("old", "new"):
+        for L in range(1, 6):
+            fwd = mk_seq(kind, "ACGTA"[:L], 0)
+            for seq in (fwd, fwd.rc()):
+                rced = bool(seq._seq.is_reversed)
+                for s in range(-3, L + 4):
+                    for e in range(-3, L + 4):
+                        real = _real_make_feature(seq, [[s, e]], "+")
+                        reqs.append(("makefeature", dict(L=L, rced=rced, minus=False, spans=[[s, e]])))
+                        expect.append(("makefeature", dict(kind=kind, L=L, rced=rced, rel_spans=[[s, e]], strand="+", cls="box"), real, None))
+                        if s < e and not rced and "err" not in real:
+                            core = list(real["spans"])
+                            if s < 0:
+                                core = core[1:]
+                            if e > L:
+                                core = core[:-1]
+                            reqs.append(("cliplocate", dict(L=L, span=[s, e])))
+                            expect.append(("cliplocate", dict(kind=kind, L=L, span=[s, e]), core, None))
+    # (g) feature_after_history end to end: the model runs the WHOLE history itself (C01's runOps from ofString at the
+    # annotation offset), then featureOnView + getSlice; the real side applies the same slice / rc history (copy ops
+    # left out: they are not ops of the model) and asks get_features + get_slice.  View record, displayed string and
+    # residues are compared.
+    for i in range(ctx.budget(120, 1200)):
+        case = gen_case(rng)
+        hist = [op for op in case["ops"] if op[0] in ("s", "rc")]
+        hcase = dict(case, ops=hist)
+        try:
+            seq, state = build(hcase)
+        except Exception:  # noqa: BLE001
+            continue
+        if len(seq) == 0:
+            continue
+        jops = [["s", op[1], op[2], None] if op[0] == "s" else ["rc"] for op in hist]
+        for f in case["feats"]:
+            try:
+                got = [x for x in seq.get_features(name=f["name"], allow_partial=True)]
+                if not got:
+                    continue
+                try:
+                    resid = str(got[0].get_slice())
+                except Exception as e:  # noqa: BLE001
+                    resid = f"raised {type(e).__name__}: {e}"
+            except Exception as e:  # noqa: BLE001
+                resid = {"err": type(e).__name__}
+            reqs.append(("history", dict(parent=case["text"], offset=case["offset"], ops=jops, minus=f["strand"] == "-", spans=f["spans"])))
+            expect.append(("history", dict(case=hcase, feature=f), dict(view=view_json(seq), str=str(seq), slice=resid), state))
     replies = ctx.driver.batch(reqs)
     for (kind, inp, real, extra), rep in zip(expect, replies):
         out["evaluations"] += 1
@@ -819,6 +934,34 @@ def correspondence(ctx):
                 bump(out, "window_err", real["err"])
             elif inp["window"] != [None, None]:
                 out["nontrivial"].add(("w", json.dumps(inp["case"]["ops"]), inp["case"]["text"], str(inp["window"])))
+        elif kind == "makefeature":
+            bump(out, "makefeature_class", inp["cls"])
+            if "err" in real or "err" in rep:
+                bump(out, "makefeature_err", str(real.get("err")))
+            if rep != real:
+                add_failure(out, "corr", "makeFeature model differs from Sequence.make_feature called directly", inp, rep, real, confirmed=False)
+            elif "err" in real or any(x[0] == "lost" for x in real["spans"]) or real["reversed"]:
+                out["nontrivial"].add(("mf", inp.get("L", 0), json.dumps(inp["rel_spans"]), inp["strand"], json.dumps(inp.get("case", {}).get("ops"))))
+        elif kind == "history":
+            if "err" in rep and "view" not in rep:
+                add_failure(out, "corr", "the model's history failed where the real one succeeded", inp, rep, real, confirmed=False)
+            elif rep["view"] != real["view"] or rep["str"] != real["str"]:
+                add_failure(out, "corr", "runOps model: view record / displayed string after the history differ", inp,
+                            dict(view=rep["view"], str=rep["str"]), dict(view=real["view"], str=real["str"]), confirmed=False)
+            elif isinstance(real["slice"], str) and real["slice"].startswith("raised"):
+                if _known_offset_guard(inp["case"], real["slice"]):
+                    bump(out, "history_get_slice_raised", "ValueError: cannot set offset")
+                else:
+                    add_failure(out, "corr", "get_slice raised after the history where the model returns residues", inp, rep["slice"], real["slice"], confirmed=False)
+            elif rep["slice"] != real["slice"]:
+                add_failure(out, "corr", "feature_after_history: model residues after the whole history differ from get_slice", inp, rep["slice"], real["slice"], confirmed=False)
+            else:
+                bump(out, "history_len_unit", len(inp["case"]["ops"]))
+                if len(inp["case"]["ops"]) > 1 or extra[2]:
+                    out["nontrivial"].add(("hist", inp["case"]["text"], json.dumps(inp["case"]["ops"]), inp["feature"]["name"]))
+        elif kind == "cliplocate":
+            if rep != real:
+                add_failure(out, "corr", "clipLocate (clipSpan then locate) differs from the real map of one span", inp, rep, real, confirmed=False)
         elif kind == "project":
             got = None if "err" in rep else dict(pl=rep["pl"], spans=rep["spans"])
             if got != real:
@@ -830,7 +973,12 @@ def correspondence(ctx):
                 if rep != real:
                     add_failure(out, "corr", "getSlice model and get_slice disagree about raising", inp, rep, real, confirmed=False)
             elif isinstance(extra, str) and extra.startswith("raised"):
-                bump(out, "get_slice_raised", extra)
+                # only the open finding C04-new-sequence-feature-slice-offset-guard is tolerated here (new-style
+                # Sequence._mapped, not modelled); any other exception where the model returns residues is a mismatch
+                if _known_offset_guard(inp["case"], extra):
+                    bump(out, "get_slice_raised", extra.split(":")[0] + ": cannot set offset")
+                else:
+                    add_failure(out, "corr", "get_slice raised where the getSlice model returns residues", inp, rep, extra, confirmed=False)
             elif rep != extra:
                 add_failure(out, "corr", "getSlice model differs from the residues get_slice returned", inp, rep, extra, confirmed=False)
         elif kind == "denote":
@@ -853,8 +1001,10 @@ def correspondence(ctx):
             s = "".join(case["text"][p - off] for p in rep["pos"])
             s = s.translate(COMP) if rep["comp"] else s
             if isinstance(resid, str) and resid.startswith("raised"):
-                # get_slice itself raised (Sequence._mapped / constructor, not modelled): spec_check reports it
-                bump(out, "get_slice_raised", resid)
+                # get_slice itself raised (Sequence._mapped / constructor, not modelled): spec_check reports it;
+                # tolerated here only for the open new-style offset-guard finding
+                if not _known_offset_guard(case, resid):
+                    add_failure(out, "corr", "get_slice raised where the model yields slice positions", inp, s, resid, confirmed=False)
             elif s != resid:
                 add_failure(out, "corr", "model slice positions do not spell the residues get_slice returned", inp, s, resid, confirmed=False)
             elif any(x[0] == "lost" for x in rep["spans"]) or state[2]:
@@ -867,6 +1017,41 @@ def correspondence(ctx):
 # --------------------------------------------------------------------------
 # findings plumbing
 # --------------------------------------------------------------------------
+def _aln_hist_state(case):
+    """(A, B, rev): the original alignment columns [A, B) the history retains, and the orientation (pure arithmetic)"""
+    n = len(next(iter(case["rows"].values())))
+    A, B, rev = 0, n, False
+    for op in case["ops"]:
+        if op[0] == "rc":
+            rev = not rev
+        else:
+            a, b, _ = slice(op[1], op[2], None).indices(B - A)
+            b = max(a, b)
+            A, B = (B - b, B - a) if rev else (A + a, A + b)
+    return A, B, rev
+
+
+def _unrebased_explains(f):
+    """True iff the failure is exactly what 'alignment-level feature coordinates are read, unchanged, on the sliced
+    alignment' predicts: a wrong slice must equal the stored columns [a, b) taken from the CURRENT alignment
+    (plus-strand), an exception must come with a stored start beyond the current alignment length.  Any other wrong
+    output of an alignment-level feature is a different violation and is not matched."""
+    inp = f.get("input") or {}
+    case = inp.get("aln_hist_case")
+    if not case:
+        return False
+    A, B, _ = _aln_hist_state(case)
+    sig = f.get("sig", "")
+    if ":raises:" in sig:
+        return any(x["spans"][0][0] > B - A for x in case.get("aln_feats", []))
+    spec = inp.get("feature")
+    if not spec or ":slice:" not in sig:
+        return False
+    a, b = spec["spans"][0]
+    pred = {k: v[A:B][a:b] for k, v in case["rows"].items()}
+    return f.get("got") == pred and A > 0
+
+
 def match_finding(f, k):
     if f.get("sig") not in k.get("sigs", []):
         return False
@@ -874,6 +1059,10 @@ def match_finding(f, k):
     if r.get("got_contains") and r["got_contains"] not in str(f.get("got")):
         return False
     if r.get("raises_contains") and ":raises:" in f.get("sig", "") and r["raises_contains"] not in str(f.get("got")):
+        return False
+    if r.get("kind") and ((f.get("input") or {}).get("case") or {}).get("kind") != r["kind"]:
+        return False
+    if r.get("unrebased") and not _unrebased_explains(f):
         return False
     return True
 
